@@ -13,7 +13,8 @@ EXPLANATION = ("(VC, z3) the recursive-descent reader of SML at the TOKEN level,
 ASSUMPTIONS = [
     "the tokenizer (text -> tokens, SMLParser.parse_all) is not under contract: its termination and what counts as a bracket inside quotes are exercised by the bounded pass only",
     "conversions of a token text (int(), float(), strip(), encode(), upper()) are over-approximated: they raise or yield SOME value; from Python's grammar of numeric literals only 'a text that converts is not empty and contains neither < nor >' is used",
-    "higher-order link: the sub-reader ItemL passes to _read_items is Item._read_sml_token -> _read_item, whose proved post-condition (ReadItem) contains the clauses SubParserAbs assumes; the link between the two contracts is by inspection of the clauses, not a generated obligation",
+    "the sub-reader parameter of _read_items is a call-out with the contract SubParserAbs; for the reader ItemL actually passes (ItemL._read_sml_token) these clauses are obligations of the unit ListMemberReader; that ItemL passes exactly this function is read off from_sml, not a generated obligation",
+    "which exception a rejected text raises is not specified (may_raise = Exception: IndexError at the end of the tokens, ValueError from a conversion, SMLParseError): any exception counts as rejection",
     "the item constructors (validation of the values read) and SMLToken.exception are call-outs that do not touch the parser",
     "reference recogniser of the SML item grammar in bounded/C15_api.py", "bounded scope as stated in evidence.bounded",
 ]
